@@ -33,6 +33,7 @@ pub fn property() -> Property {
             "generated entries are 0 or have magnitude within about 3e-13..7e12 (f32: ..7e9); the norm sub-check additionally scales about a third of the rows of 40 % of its cases down to the subnormal range and its borders (largest |entry| around MIN_POSITIVE, around 1/MAX where a reciprocal of the norm overflows, 1e-310, 1e-320, 5e-324; f32 1e-38..1.4e-45) and to the square root of MIN_POSITIVE. Finite output is demanded for every row. Unit norm and row/norm are demanded with the ordinary tolerance for every non-zero row under L1 and Max (sums and maxima of subnormals are exact, the quotient of two exact operands is correctly rounded and normal, so no extra slack is needed) and under L2 only where sum(y^2) >= 8*MIN_POSITIVE of the element type: below that the squares underflow (the computed norm loses relative accuracy and reaches exactly 0 for subnormal rows, which linfa treats like an all-zero row), the L2 norm is not representable by the arithmetic and only finiteness is demanded. Large magnitudes near overflow are not generated".into(),
             format!("whitening is judged only on training data with sample-covariance eigenvalues lambda_min > 0, sqrt((n-1) lambda_min) >= {:e} and lambda_max <= {:e} (linfa clamps singular values / inverse roots at the absolute value 1e-8; data near the clamp are a stated domain limit), and only where the covariance tolerance {}*eps*(n+p)*p*cond + 4*(32*eps*max|x|/sqrt(lambda_min))^2 is <= {:e}; other cases are counted as not judged", whiten::CLAMP_SINGULAR_MIN, whiten::CLAMP_EIGEN_MAX, whiten::K_COV, whiten::COV_TOL_MAX),
             "a covariance deviation of PCA/ZCA whitening is attributed to the known sporadic non-convergence of linfa-linalg's SVD (signature whiten:svd-sporadic-inaccuracy) only if the returned matrix still has the form the formula guarantees whatever the SVD returns (ZCA symmetric, PCA rows mutually orthogonal) and a fresh fit on at least one re-presentation of the same data (features rotated by 1..p-1 or reversed, rows reversed, other storage order; never re-centred or rescaled) whitens within tolerance. Argument: a wrong formula (n for n-1, missing rotation, missing or wrong centring) yields a transform that is a function of the exact sample covariance, equivariant under these permutations, so its deviation is the same on every presentation and can never be cured by one; every other deviation, all Cholesky and all p = 1 deviations are whiten:covariance-not-identity".into(),
+            format!("whiten_pca_batch: a case is a batch of {} independent tall (n >= 10 p, p 2..=5, n <= 120) full-rank data sets derived from one seed, spread ratio between the principal directions 1e3..1e4 in f64 (covariance condition 1e6..1e8) and 1e2..10^2.5 in f32; the verdict is on the MEDIAN over the batch of s = max|cov(Z) - I| / (eps * sqrt(cond)), which must be <= {} (an SVD of the centred records is accurate to eps*sqrt(cond); measured on the unchanged tree: median s 0.4..0.5, s > 30 in 0.47 % of single fits because of the heavy-tailed error of linfa-linalg's SVD, hence the median and a false-alarm probability below 2e-8 per case); a single inaccurate fit inside a batch is counted (class pca_batch_has_an_outlier_fit), not reported", whiten::BATCH, whiten::MEDIAN_S_MAX),
             "row selection must commute bit-for-bit for the element-wise scalers (same arithmetic on both sides, NaNs identified); for whitening (a matrix product) within twice the dot-product tolerance".into(),
             "an all-zero row given to the norm scaler must come back finite and, being a rescaling of the zero vector, all-zero".into(),
             "trusted base: ndarray, vengine::num (covariance, Jacobi eigenvalues), proptest".into(),
@@ -41,6 +42,9 @@ pub fn property() -> Property {
             prop_sub("whiten", 100_000, 1_000_000, |t: Tier| gens::whiten_cases(t), whiten::check)
                 .chunks(16)
                 .require(&["method_pca", "method_zca", "method_cholesky", "elem_f32", "elem_f64", "transform_has_unseen_rows"]),
+            prop_sub("whiten_pca_batch", 6_000, 60_000, |_t: Tier| whiten::pca_batch_cases(), whiten::check_pca_batch)
+                .chunks(8)
+                .require(&["pca_batch_tall_ill_conditioned", "pca_batch_cond_ge_1e6", "elem_f32", "elem_f64"]),
             prop_sub("linear", 160_000, 1_600_000, |t: Tier| gens::linear_cases(t), linear::check)
                 .chunks(16)
                 .require(&[
